@@ -313,11 +313,25 @@ fn handle(line: &str) -> String {
             let frc = f[1] == "1";
             let mut p = parse_fen(frc, f[2]);
             let mut hist = vec![p.hash];
+            // a leading H:empty / H:drop / H:junk token reshapes the history handed to the search
+            let mut shape = "";
             if !f[3].is_empty() {
                 for t in f[3].split(' ') {
+                    if let Some(sh) = t.strip_prefix("H:") {
+                        shape = sh;
+                        continue;
+                    }
                     apply(&mut p, t);
                     hist.push(p.hash);
                 }
+            }
+            match shape {
+                "empty" => hist.clear(),
+                "drop" => {
+                    hist.pop();
+                }
+                "junk" => hist = vec![1, 2, 3],
+                _ => {}
             }
             let mut tt = Hashtable::<TTEntry>::new(f[4].parse().unwrap());
             let mut outs = vec![];
@@ -358,49 +372,75 @@ fn handle(line: &str) -> String {
             )
         }
         "tt" => {
-            // entries are u64 (size 8); the TTEntry instantiation is exercised by the search commands
+            // element size 8: entries are u64; 24: entries are TTEntry (the value is carried in the hash field, 0 = default)
             let ops: Vec<&str> = if f[2].is_empty() { vec![] } else { f[2].split(' ').collect() };
-            let mut t = Hashtable::<u64>::new(0);
-            let mut outs = vec![];
-            for op in ops {
-                let v: Vec<&str> = op.split(':').collect();
-                let r = catch_unwind(AssertUnwindSafe(|| match v[0] {
-                    "r" => {
-                        t.resize(v[1].parse().unwrap());
-                        "r".to_string()
-                    }
-                    "a" => {
-                        t.add(v[1].parse().unwrap(), &v[2].parse::<u64>().unwrap());
-                        "a".to_string()
-                    }
-                    "p" => t.poll(v[1].parse().unwrap()).to_string(),
-                    "c" => {
-                        t.clear();
-                        "c".to_string()
-                    }
-                    "h" => match t.hashfull() {
-                        Some(h) => h.to_string(),
-                        None => "-".to_string(),
-                    },
-                    "l" => t.len().to_string(),
-                    _ => panic!("tt op"),
-                }));
-                outs.push(match r {
-                    Ok(s) => s,
-                    Err(_) => "PANIC".to_string(),
-                });
+            match f[1] {
+                "8" => run_tt::<u64>(&ops, |v| v, |e| *e),
+                "24" => run_tt::<TTEntry>(&ops, |v| TTEntry { hash: v, ..Default::default() }, |e| e.hash),
+                _ => panic!("tt element size"),
             }
-            let n = t.len();
-            let dump = if n <= 4096 {
-                (0..n).map(|i| t.poll(i as u64).to_string()).collect::<Vec<_>>().join(",")
-            } else {
-                "big".to_string()
-            };
-            format!("{} | {}", outs.join(" "), dump)
         }
         "ttsize" => format!("{} {}", std::mem::size_of::<TTEntry>(), Hashtable::<TTEntry>::new(1).len()),
         c => panic!("unknown command {}", c),
     }
+}
+
+fn run_tt<T: Copy + Default + PartialEq>(ops: &[&str], mk: fn(u64) -> T, val: fn(&T) -> u64) -> String {
+    let mut t = Hashtable::<T>::new(0);
+    let mut outs = vec![];
+    for op in ops {
+        let v: Vec<&str> = op.split(':').collect();
+        let r = catch_unwind(AssertUnwindSafe(|| match v[0] {
+            "r" => {
+                t.resize(v[1].parse().unwrap());
+                "r".to_string()
+            }
+            "a" => {
+                t.add(v[1].parse().unwrap(), &mk(v[2].parse::<u64>().unwrap()));
+                "a".to_string()
+            }
+            // A:<first>:<count>:<val> stores val under count consecutive keys
+            "A" => {
+                let k0: u64 = v[1].parse().unwrap();
+                let e = mk(v[3].parse::<u64>().unwrap());
+                for j in 0..v[2].parse::<u64>().unwrap() {
+                    t.add(k0.wrapping_add(j), &e);
+                }
+                "A".to_string()
+            }
+            "p" => val(&t.poll(v[1].parse().unwrap())).to_string(),
+            // P:<first>:<count> number of non-default entries found under count consecutive keys
+            "P" => {
+                let k0: u64 = v[1].parse().unwrap();
+                let mut n = 0u64;
+                for j in 0..v[2].parse::<u64>().unwrap() {
+                    n += (t.poll(k0.wrapping_add(j)) != T::default()) as u64;
+                }
+                n.to_string()
+            }
+            "c" => {
+                t.clear();
+                "c".to_string()
+            }
+            "h" => match t.hashfull() {
+                Some(h) => h.to_string(),
+                None => "-".to_string(),
+            },
+            "l" => t.len().to_string(),
+            _ => panic!("tt op"),
+        }));
+        outs.push(match r {
+            Ok(s) => s,
+            Err(_) => "PANIC".to_string(),
+        });
+    }
+    let n = t.len();
+    let dump = if n <= 4096 {
+        (0..n).map(|i| val(&t.poll(i as u64)).to_string()).collect::<Vec<_>>().join(",")
+    } else {
+        "big".to_string()
+    };
+    format!("{} | {}", outs.join(" "), dump)
 }
 
 fn main() {
